@@ -389,6 +389,39 @@ static const struct txline *g_tx;
 static int g_ntx;
 
 static int render(struct vf_rng *r, const struct cfg *c, const struct txline *tx, int n, uint8_t *raw, size_t raw_size);
+static const uint8_t *row_of(const struct cfg *c, const uint8_t *raw, int l);
+static int payload_equal(const struct svc *s, const uint8_t *sent, const uint8_t *got);
+
+/* Which receiver a diagnosis re-runs: the failure of a single-line slicer call (fresh slicer state, that
+ * line alone) is diagnosed with the same kind of call, not with the raw decoder, whose slicer has adapted
+ * its threshold on the lines before. */
+enum { DIAG_RAW_DECODER, DIAG_SLICER_NEW, DIAG_SLICER_OLD };
+static int g_diag = DIAG_RAW_DECODER;
+
+static int try_single(const struct cfg *c2, const struct txline *t, const uint8_t *raw)
+{
+	const _vbi_service_par *p = c04_lib_par(t->s->id == VBI_SLICED_TELETEXT_B ? VBI_SLICED_TELETEXT_B : t->s->id);
+	const uint8_t *line = row_of(c2, raw, t->line);
+	uint8_t buf[64];
+	int nb = (t->s->payload_bits + 7) / 8, ok = 0;
+	if (!p) return 0;
+	memset(buf, 0, sizeof buf);
+	if (g_diag == DIAG_SLICER_NEW) {
+		vbi3_bit_slicer *bs = vbi3_bit_slicer_new();
+		if (bs && vbi3_bit_slicer_set_params(bs, c2->sp.sampling_format, (unsigned)c2->sp.sampling_rate, 0, (unsigned)c2->spl,
+				p->cri_frc >> p->frc_bits, p->cri_frc_mask >> p->frc_bits, p->cri_bits, p->cri_rate, ~0u,
+				p->cri_frc & ((1u << p->frc_bits) - 1), p->frc_bits, p->payload, p->bit_rate, (vbi3_modulation)p->modulation))
+			ok = vbi3_bit_slicer_slice(bs, buf, (unsigned)nb, line) && payload_equal(t->s, t->data, buf);
+		vbi3_bit_slicer_delete(bs);
+	} else {
+		vbi_bit_slicer os;
+		memset(&os, 0, sizeof os);
+		vbi_bit_slicer_init(&os, c2->spl, c2->sp.sampling_rate, (int)p->cri_rate, (int)p->bit_rate, p->cri_frc, p->cri_frc_mask >> p->frc_bits,
+				    (int)p->cri_bits, (int)p->frc_bits, (int)p->payload, (vbi_modulation)p->modulation, c2->sp.sampling_format);
+		ok = vbi_bit_slice(&os, (uint8_t *)line, buf) && payload_equal(t->s, t->data, buf);
+	}
+	return ok;
+}
 
 static int try_decode(const struct cfg *c2, unsigned services, const struct txline *t)
 {
@@ -400,7 +433,9 @@ static int try_decode(const struct cfg *c2, unsigned services, const struct txli
 	vbi3_raw_decoder *rd;
 	vf_rng_seed(&lr, vf_seed ^ 0x5151, (uint64_t)vf_case);
 	vf_phase("diagnosis");
-	if (raw && out && render(&lr, c2, g_tx, g_ntx, raw, sz) && (rd = vbi3_raw_decoder_new(&c2->sp))) {
+	if (raw && out && g_diag != DIAG_RAW_DECODER && c2->sp.synchronous) {
+		if (render(&lr, c2, g_tx, g_ntx, raw, sz)) ok = try_single(c2, t, raw);
+	} else if (raw && out && render(&lr, c2, g_tx, g_ntx, raw, sz) && (rd = vbi3_raw_decoder_new(&c2->sp))) {
 		vbi3_raw_decoder_add_services(rd, services, c2->strict);
 		n = (int)vbi3_raw_decoder_decode(rd, out, (unsigned)scan, raw);
 		if (c2->sp.synchronous) {
@@ -425,6 +460,7 @@ static const char *explain(const struct cfg *c, const struct txline *t, const ch
 	static int cache_line[16];
 	static const char *cache_in[16];
 	static const char *cache_key[16];
+	static int cache_diag[16];
 	static int ncache;
 	const char *q = NULL;
 	double floor_rate = (t->s->kind == K_TTX) ? 13.5e6 : 2 * t->s->clock;
@@ -434,7 +470,7 @@ static const char *explain(const struct cfg *c, const struct txline *t, const ch
 	/* the verdict is cached per (service, line, kind of failure) only: every other failure is diagnosed
 	   on its own, so that an unrelated fault cannot inherit a quirk key */
 	for (i = 0; i < ncache; i++)
-		if (cache_id[i] == t->s->id && cache_line[i] == t->line && cache_in[i] == key) return cache_key[i] ? cache_key[i] : key;
+		if (cache_id[i] == t->s->id && cache_line[i] == t->line && cache_in[i] == key && cache_diag[i] == g_diag) return cache_key[i] ? cache_key[i] : key;
 
 	if (t->s->kind == K_TTX && c->scanning == 525 && ((t->line == 21 && (c->req & VBI_SLICED_CAPTION_525_F1)) || (t->line == 284 && (c->req & VBI_SLICED_CAPTION_525_F2)))) {
 		/* Closed Caption 525 is identified by its line number and two start bits only */
@@ -456,9 +492,12 @@ static const char *explain(const struct cfg *c, const struct txline *t, const ch
 	}
 	if (!try_decode(c, c->req, t)) {          /* reproducible with a fresh decoder */
 		if (!q && c->trail_us < 0.5) {
+			/* The named deviation: the run-in search ends at the nominal end of the run-in, one sample
+			   before the point where the slicer recognises a run-in ending exactly there.  Granted only if
+			   ONE more sample of line (one pixel pair for 4:2:2) cures the line; a line that needs more
+			   margin than that keeps the generic key. */
 			struct cfg c2 = *c;
-			c2.spl += (int)ceil(0.6e-6 * c->rate);
-			if (c04_is_422(c2.sp.sampling_format) && (c2.spl & 1)) c2.spl++;
+			c2.spl += c04_is_422(c2.sp.sampling_format) ? 2 : 1;
 			c2.sp.bytes_per_line = c2.spl * c2.bpp;
 			if (try_decode(&c2, c->req, t)) { q = "model:C04:Q-needs-trailing-margin"; vf_count("quirk_needs_trailing_margin", 1); }
 		}
@@ -474,7 +513,7 @@ static const char *explain(const struct cfg *c, const struct txline *t, const ch
 			if (try_decode(&c2, c->req, t)) { q = "model:C04:Q-marginal-sampling-rate"; vf_count("quirk_marginal_sampling_rate", 1); }
 		}
 	}
-	if (ncache < 16) { cache_id[ncache] = t->s->id; cache_line[ncache] = t->line; cache_in[ncache] = key; cache_key[ncache] = q; ncache++; }
+	if (ncache < 16) { cache_id[ncache] = t->s->id; cache_line[ncache] = t->line; cache_in[ncache] = key; cache_key[ncache] = q; cache_diag[ncache] = g_diag; ncache++; }
 	return q ? q : key;
 }
 
@@ -620,6 +659,7 @@ static void bit_slicers(const struct cfg *c, int frame, const struct txline *t, 
 	if (!p) { vf_fail("harness:C04:no-service-par", "no table entry for 0x%x", t->s->id); return; }
 
 	/* new interface */
+	g_diag = DIAG_SLICER_NEW;
 	{
 		vbi3_bit_slicer *bs = vbi3_bit_slicer_new();
 		vf_phase("vbi3_bit_slicer_set_params");
@@ -669,6 +709,7 @@ static void bit_slicers(const struct cfg *c, int frame, const struct txline *t, 
 	/* old interface */
 	{
 		vbi_bit_slicer s;
+		g_diag = DIAG_SLICER_OLD;
 		memset(&s, 0, sizeof s);
 		vf_phase("vbi_bit_slicer_init");
 		vbi_bit_slicer_init(&s, c->spl, c->sp.sampling_rate, (int)p->cri_rate, (int)p->bit_rate, p->cri_frc, p->cri_frc_mask >> p->frc_bits,
@@ -689,6 +730,7 @@ static void bit_slicers(const struct cfg *c, int frame, const struct txline *t, 
 				fail(c, "vbi_bit_slicer", frame, "model:C04:wrote-beyond-array", "byte after the %d payload bytes modified", nb);
 		}
 	}
+	g_diag = DIAG_RAW_DECODER;
 }
 
 static void old_rd_setup(vbi_raw_decoder *rd, const struct cfg *c)
